@@ -231,6 +231,7 @@ struct State {
     clock_reads: u64,
     pid: u32,
     pid_reads: u64,
+    rss_kib: u64,
 }
 
 /// Key used by threads that are not simulated launches (the harness itself).
@@ -251,6 +252,7 @@ thread_local! {
         clock_reads: 0,
         pid: 0,
         pid_reads: 0,
+        rss_kib: 0,
     }) };
 }
 
@@ -289,6 +291,7 @@ pub fn install(plan: &Plan) {
         s.clock_reads = 0;
         s.pid = plan.pid;
         s.pid_reads = 0;
+        s.rss_kib = plan.rss_kib;
     });
 }
 
@@ -458,4 +461,70 @@ pub extern "C" fn getppid() -> c_int {
         // SAFETY: plain system call without arguments.
         None => unsafe { syscall(SYS_GETPPID) as c_int },
     }
+}
+
+const SYS_OPENAT: std::ffi::c_long = 257;
+const SYS_MEMFD_CREATE: std::ffi::c_long = 319;
+const AT_FDCWD: std::ffi::c_long = -100;
+const O_LARGEFILE: c_int = 0;
+
+unsafe extern "C" {
+    fn write(fd: c_int, buf: *const c_void, count: usize) -> isize;
+    fn lseek(fd: c_int, off: i64, whence: c_int) -> i64;
+}
+
+/// Memory-statistics seam, in-process side: a launch thread that opens /proc/self/status gets the
+/// real file with the resident-set figures replaced by the plan's; every other open of every
+/// thread is passed to the kernel unchanged.
+///
+/// # Safety
+/// `path` must be a valid C string, as for the libc function it replaces.
+#[cfg(all(target_os = "linux", target_arch = "x86_64"))]
+#[unsafe(no_mangle)]
+pub unsafe extern "C" fn open64(path: *const std::ffi::c_char, flags: c_int, mode: c_uint) -> c_int {
+    // SAFETY: the caller guarantees a valid C string.
+    let wanted = unsafe { std::ffi::CStr::from_ptr(path) }.to_bytes() == b"/proc/self/status";
+    if wanted {
+        let rss = STATE
+            .try_with(|s| s.try_borrow().ok().filter(|s| s.installed).map(|s| s.rss_kib))
+            .unwrap_or(None)
+            .unwrap_or(0);
+        if rss > 0 {
+            // SAFETY: raw system calls on a path / descriptors owned by this function.
+            unsafe {
+                let real = syscall(SYS_OPENAT, AT_FDCWD, path, 0x80000 /* O_RDONLY|O_CLOEXEC */, 0) as c_int;
+                if real >= 0 {
+                    let mut buf = vec![0u8; 16384];
+                    let n = syscall(0 /* read */, real, buf.as_mut_ptr(), buf.len()) as isize;
+                    syscall(3 /* close */, real);
+                    if n > 0 {
+                        let text = String::from_utf8_lossy(&buf[..n as usize]).into_owned();
+                        let mut out = String::new();
+                        for line in text.lines() {
+                            if line.starts_with("VmRSS:") || line.starts_with("VmHWM:") || line.starts_with("RssAnon:") {
+                                let name = line.split(':').next().unwrap_or("");
+                                out.push_str(&format!("{name}:\t{rss:8} kB\n"));
+                            } else {
+                                out.push_str(line);
+                                out.push('\n');
+                            }
+                        }
+                        let fd = syscall(SYS_MEMFD_CREATE, c"gramsim-proc".as_ptr(), 0) as c_int;
+                        if fd >= 0 {
+                            write(fd, out.as_ptr().cast(), out.len());
+                            lseek(fd, 0, 0);
+                            let _ = STATE.try_with(|s| {
+                                if let Ok(mut s) = s.try_borrow_mut() {
+                                    s.pid_reads += 1;
+                                }
+                            });
+                            return fd;
+                        }
+                    }
+                }
+            }
+        }
+    }
+    // SAFETY: plain system call with the caller's arguments.
+    unsafe { syscall(SYS_OPENAT, AT_FDCWD, path, flags | O_LARGEFILE, mode) as c_int }
 }
